@@ -398,6 +398,18 @@ pub fn gen(tier: &str, rng: &mut Rng, emit: &mut Emit) {
             }
         }
     }
+    // value relations between successive assignments to one matrix cell: back to the default 0xFFFF, equal, 0, high bit
+    for (ni, nt) in [(1u64, 1u64), (2, 3), (3, 2)] {
+        for first in [5u64, 0, 0xFFFF, 0x8000] {
+            for second in [0xFFFFu64, 0, 5, 0x7FFF, 0xFFFE] {
+                let (i, j) = (ni - 1, nt - 1);
+                let bs = vec![l(vec![a(5), a(i), a(j), a(first)]), l(vec![a(5), a(0), a(0), a(rng.val(16))]), l(vec![a(5), a(i), a(j), a(second)])];
+                let c = rand_ctor(rng);
+                let op = locality(rng, ni, nt, bs);
+                emit.case(15, history(rng, c, vec![op]));
+            }
+        }
+    }
     // random mixed histories
     let n = if thorough { 3000 } else { 200 };
     for _ in 0..n {
